@@ -179,9 +179,7 @@ class MovingWindow(BackgroundService):
             self._sampling_period = resampler_config.resampling_period
 
         # Sampling period might not fit perfectly into the window size.
-        num_samples = math.ceil(
-            size.total_seconds() / self._sampling_period.total_seconds()
-        )
+        num_samples = math.ceil(size / self._sampling_period)
 
         self._resampled_data_recv = resampled_data_recv
         self._buffer = OrderedRingBuffer(
